@@ -24,12 +24,25 @@ mod toks;
 mod disp;
 #[cfg(feature = "std")]
 mod sinks;
+#[cfg(feature = "full")]
+mod sbridge;
+#[cfg(feature = "full")]
+mod sfam;
 
 #[global_allocator]
 static GLOBAL: alloc::Counting = alloc::Counting;
 
 use serde_json::{json, Value};
 use std::io::{BufRead, BufReader, BufWriter, Write};
+
+#[cfg(feature = "full")]
+fn sbridge_matches(obs: &Value, exp: &Value) -> bool { sbridge::matches(obs, exp) }
+#[cfg(not(feature = "full"))]
+fn sbridge_matches(_: &Value, _: &Value) -> bool { false }
+#[cfg(feature = "full")]
+fn sbridge_both_matches(obs: &Value, exp: &Value) -> bool { sbridge::both_matches(obs, exp) }
+#[cfg(not(feature = "full"))]
+fn sbridge_both_matches(_: &Value, _: &Value) -> bool { false }
 
 fn silence_panics() {
     std::panic::set_hook(Box::new(|_| {}));
@@ -62,6 +75,8 @@ fn cmd_cases(args: &[String]) -> i32 {
         #[cfg(all(feature = "alloc", feature = "half"))]
         let ok = if c["fam"] == "display" { disp::matches(&obs, &c["exp"]) }
                  else if c["fam"] == "typed" { types::matches(&obs, &c["exp"]) }
+                 else if c["fam"] == "serde" { sbridge_matches(&obs, &c["exp"]) }
+                 else if c["fam"] == "both" { sbridge_both_matches(&obs, &c["exp"]) }
                  else if c["fam"] == "tok" { toks::matches(c["name"].as_str().unwrap(), &obs, &c["exp"]) }
                  else { abs::matches(&obs, &c["exp"]) };
         #[cfg(not(all(feature = "alloc", feature = "half")))]
